@@ -94,6 +94,8 @@ def r3_entry_frame(ck, F):
     r = fmt.entry_frame_read(F)
     ok = r.get("key") is not None and tuple(r["key"]) == ("n1+n2+s", "k+n1+n2+s") and tuple(r["val"]) == ("k+n1+n2+s", "k+n1+n2+s+v") and r["decode1_from"] == "s" and r["decode2_from"] == "n1+s" and r["returns_next"] == "k+n1+n2+s+v"
     ck.ob(R, "entry-read", ok, f"entry read as {r}", F.body(A("block_entry_at")))
+    for ok_, msg, site in fmt.entry_none_guards(F):
+        ck.ob(R, "entry-read-none-only-past-the-entry", ok_, "entry_at answers None only at the end of the payload or on malformed data — " + msg, F.body(A("block_entry_at")), site)
     fw = fmt.footer_write(F)
     ck.ob(R, "footer-write", tup(fw) == (("table", "index_offsets", ("u64>::to_be_bytes",), False), ("count", "index_offsets", ("u32>::to_be_bytes",))), f"footer written as {fw} (offset table u64 BE in order, then its u32 BE count)", F.body(A("bw_finish")))
     fr = fmt.footer_read(F)
